@@ -158,9 +158,17 @@ fn main() {
             }
             continue;
         }
+        // a query with a SKIP or LIMIT takes two case indices (itself and its inlined twin)
+        let has_window = |p: &Proj| p.skip.is_some() || p.limit.is_some();
+        let windowed = q.parts.iter().any(|s| {
+            has_window(&s.ret) || s.clauses.iter().any(|c| matches!(c, Clause::With(p, _) if has_window(p)))
+        });
         let idx = out.next_index();
-        if !out.wants(idx) {
+        if !out.wants(idx) && !(windowed && out.wants(idx + 1)) {
             out.skip();
+            if windowed {
+                out.skip();
+            }
             continue;
         }
         let text_p = render_query(&q);
@@ -190,14 +198,18 @@ fn main() {
                 if !a.is_empty() {
                     out.count("both_ok_nonempty");
                 }
+                // The two runs are compared as bags: the order of rows is checked (up to ties)
+                // by the model on the parameterised run. With a SKIP or LIMIT somewhere the two
+                // runs may legitimately keep different rows (the engine's group order varies
+                // between executions), so there both runs are checked against the model instead.
                 let mut x: Vec<String> = a.iter().map(|r| format!("{:?}", r)).collect();
                 let mut y: Vec<String> = b.iter().map(|r| format!("{:?}", r)).collect();
-                let ordered = q.parts.len() == 1 && !q.parts[0].ret.order.is_empty();
-                if !ordered {
-                    x.sort();
-                    y.sort();
-                }
-                if x == y {
+                x.sort();
+                y.sort();
+                if windowed {
+                    out.count("windowed_checked_by_model");
+                    None
+                } else if x == y {
                     None
                 } else {
                     Some(format!("different answers: with parameters {} / inlined {}", human_obs(&obs_p), human_obs(&obs_i)))
@@ -223,6 +235,11 @@ fn main() {
         let i = out.case(gal, human.clone(), nontrivial);
         if let Some(d) = verdict {
             out.fail(i, &human, &d, None);
+        }
+        if windowed {
+            // the inlined twin, checked against the reference semantics as well
+            let gal_i = format!("(Case {} [] {} false {})", g_graph(g), g_query(&qi), g_obs(&obs_i));
+            out.case(gal_i, format!("[inlined twin of {}] {}", i, human).replace('\n', " "), false);
         }
     }
     out.finish();
